@@ -323,7 +323,8 @@ func evalSteps(v any, steps []SelStep) (any, error) {
 					out[f.Key] = x
 				case "string":
 					if !present || x == nil {
-						return nil, domain("|string on a missing or NULL key")
+						out[f.Key] = nil // a missing key is NULL, whatever it is piped to
+						continue
 					}
 					switch y := x.(type) {
 					case float64:
